@@ -65,6 +65,7 @@ top:
 				}
 			}
 		}
+		result = tv
 	case jp.Expr:
 		if 0 < len(tv) {
 			if _, ok := tv[0].(jp.At); ok {
